@@ -60,6 +60,14 @@ def conformance_pass(ctx, trace):
 def mc_cfg(c, props, invs, known):
     kf = "{" + ", ".join('"%s"' % k for k in known) + "}"
     s = "SPECIFICATION %s\nCONSTANTS\n" % c["spec"]
+    if "raw" in c:
+        # a system model other than Cluster.tla: its constants are given verbatim
+        s += c["raw"] + "  KnownFindings = %s\n  Notes = FALSE\nVIEW %s\n" % (kf, c.get("view", "view"))
+        if invs:
+            s += "INVARIANT " + " ".join(invs) + "\n"
+        if props:
+            s += "PROPERTY " + " ".join(props) + "\n"
+        return s + "CHECK_DEADLOCK FALSE\n"
     s += "  NodeSeq <- %s\n  TmplSeq <- %s\n  InitFits <- %s\n  Strat <- %s\n" % (c["nodes"], c["tmpls"], c["fits"], c["strat"])
     s += "  EnvBudget = %d\n  EditBudget = %d\n  AnnBudget = %d\n  MaxPerNode = %d\n  AgeCap = %d\n" % (c["env"], c["edit"], c["ann"], c["per_node"], c["agecap"])
     s += "  EnvKinds = %s\n  FaultBudget = %d\n" % (c.get("kinds", plan.ALL_KINDS), c.get("fault", 0))
@@ -97,7 +105,7 @@ def design_pass(ctx):
                 gen, dist = int(ms[-1][0].replace(",", "")), int(ms[-1][1].replace(",", ""))
         exhaustive = "Model checking completed. No error has been found." in out
         ctx.cov["passes"].append({"pass": "design:" + name, "formulas": props + invs, "states_generated": gen, "distinct_states": dist,
-                                  "exhaustive": exhaustive, "wall_s": round(dt, 1), "constants": {k: c[k] for k in ("nodes", "strat", "env", "edit", "ann", "agecap")}})
+                                  "exhaustive": exhaustive, "wall_s": round(dt, 1), "constants": ({k: c[k] for k in ("nodes", "strat", "env", "edit", "ann", "agecap")} if "raw" not in c else " ".join(c["raw"].split()))})
         ctx.cov["states"] += dist
         ctx.cov["transitions"] += gen
         m = re.search(r"(Action property|Invariant|Temporal property) (\S+) (is|was) violated", out)
@@ -262,10 +270,14 @@ def schedule_pass(ctx):
     props, invs = plan.TRACE.get(ctx.pid, ([], []))
     num, depth = (40, 50) if ctx.tier == "quick" else (400, 70)
     cfg = open(os.path.join(vcheck.SPEC, "Sched_%s.cfg" % spec)).read().replace("Depth = 60", "Depth = %d" % depth)
-    rc, out, dt, d = ctx.tlc("Sched.tla", cfg, "sched-" + spec, workers=1, timeout=900, extra=["-simulate", "num=%d" % num, "-depth", str(depth + 1), "-seed", str(ctx.seed)])
-    scheds = []
+    module = {"settings": "SchedSettings.tla"}.get(spec, "Sched.tla")
+    rc, out, dt, d = ctx.tlc(module, cfg, "sched-" + spec, workers=1, timeout=900, extra=["-simulate", "num=%d" % num, "-depth", str(depth + 1), "-seed", str(ctx.seed)])
+    scheds, seen = [], set()
     for m in re.finditer(r'<<\s*"SCHED",\s*<<(.*?)>>\s*>>', out, re.S):
-        scheds.append(re.findall(r'"([^"]+)"', m.group(1)))
+        s = re.findall(r'"([^"]*)"', m.group(1))
+        if tuple(s) not in seen:    # TLC evaluates the printing constraint more than once per behaviour
+            seen.add(tuple(s))
+            scheds.append(s)
     if not scheds:
         raise vcheck.MachineryError("no schedule generated by TLC simulation:\n" + out[-1500:])
     sfile = os.path.join(ctx.work, "schedules.json")
